@@ -14,7 +14,130 @@ func init() {
 			{"R1.1", "WAL fsync dominates primary writes", ruleWALSyncBeforePrimary},
 			{"R1.2", "commit record and TG data before fsync; failed WAL writes abort", ruleCommitBeforeSync},
 			{"R1.3", "WriteCSM acknowledges only after RequestFlush", ruleAckAfterFlush},
+			{"R1.4", "no file mutation outside the owning gates; primary writers only below flush/replay", ruleNoForeignWriter("R1.4")},
 			{"R1.5", "replay before serving", ruleReplayBeforeServing},
+			{"R5.3", "replay applies TGs in commit order (last acknowledged value wins)", ruleReplaySorted},
+			{"R2.2", "only checksum-validated TG bytes are replayed", ruleChecksumGate},
+			{"R35.4", "checkpoint records prune replay by id order", ruleCheckpointPrunesReplay},
+		},
+	})
+}
+
+func init() {
+	register(&Property{
+		ID: "C04",
+		Explanation: "Decides the fsync/checkpoint/truncate SHAPE needed for power-loss durability on every path: (R1.1/R1.2) WAL fsync dominates primary writes and covers TG data + commit record; " +
+			"(R4.2) CreateCheckpoint brackets the global Syncfs with PREPARING/COMMITCOMPLETE records and clears its candidate only after Syncfs; " +
+			"(R4.3) in SyncWAL the WAL file is truncated only on the nil-error edge of CreateCheckpoint and never with a FlushToWAL in between; " +
+			"(R4.4) WriteStatus = Seek(0) → Write → Sync → Seek(end), each result-checked; (R2.1) replayed TGs are checkpointed (Syncfs) before replay reports success.",
+		NotCovered: "which bytes a real device tears, syscall.Sync semantics, loss patterns of un-fsynced primary pages.",
+		Rules: []Rule{
+			{"R1.1", "WAL fsync dominates primary writes", ruleWALSyncBeforePrimary},
+			{"R1.2", "commit record and TG data before fsync", ruleCommitBeforeSync},
+			{"R4.2", "checkpoint brackets the global sync", ruleCheckpointBrackets},
+			{"R4.3", "truncate only behind a successful checkpoint", ruleTruncateBehindCheckpoint},
+			{"R4.4", "status header is written, synced, and the offset restored", ruleWriteStatus},
+			{"R2.1", "replayed TG is checkpointed", ruleReplayCheckpointed},
+			{"R35.4", "checkpoint records prune replay by id order", ruleCheckpointPrunesReplay},
+		},
+	})
+	register(&Property{
+		ID: "C05",
+		Explanation: "Decides the invariants the WAL protocol assumes (not the interleaving model): (R5.1) single writer — FlushToWAL/CreateCheckpoint/IncrementTGID/lastCommittedTGID are reachable only from the WAL goroutine, the inline-flush edge and startup replay; " +
+			"(R5.2) one id per commit — no id change between serializeTG and COMMITCOMPLETE, candidate = committed id; (R5.3) replay applies TGs from a sorted slice in ascending id order, never in map order; " +
+			"(R2.2) only checksum-validated bytes reach the parser; (R4.3) truncate/checkpoint order.",
+		NotCovered: "the interleaving space of flushes, checkpoints, rotations and crashes; trace conformance.",
+		Rules: []Rule{
+			{"R5.1", "single writer of the WAL state", ruleSingleWALWriter},
+			{"R5.2", "one transaction id per commit", ruleOneIDPerCommit},
+			{"R5.3", "replay in commit order", ruleReplaySorted},
+			{"R2.2", "checksum gate", ruleChecksumGate},
+			{"R4.3", "truncate only behind a successful checkpoint", ruleTruncateBehindCheckpoint},
+			{"R35.4", "checkpoint records prune replay by id order", ruleCheckpointPrunesReplay},
+			{"R4.2", "checkpoint brackets the global sync", ruleCheckpointBrackets},
+		},
+	})
+	register(&Property{
+		ID: "C07",
+		Explanation: "Decides, on every path, that acknowledgement follows the flush: (R7.1) every exit of RequestFlush passes a direct FlushToWAL or a wait on a reply channel handed to the WAL goroutine; " +
+			"(R7.2) the WAL goroutine answers a flush request only after FlushToWAL and answers unconditionally; (R1.1) fsync before primary write; (R7.4) a successful non-bypass flush passed the fsync; (R1.3) WriteCSM acknowledges only after RequestFlush.",
+		NotCovered: "visibility timing of the primary write under every schedule; errors of writePrimary/FlushToWAL are logged and the request still succeeds.",
+		Rules: []Rule{
+			{"R7.1", "the requester waits for a flush", ruleRequesterWaits},
+			{"R7.2", "reply channels are answered only after a flush, and always", ruleReplyDiscipline},
+			{"R1.1", "WAL fsync dominates primary writes", ruleWALSyncBeforePrimary},
+			{"R7.4", "flush success implies fsync", ruleFlushSuccessImpliesSync},
+			{"R1.3", "WriteCSM acknowledges only after RequestFlush", ruleAckAfterFlush},
+		},
+	})
+}
+
+func init() {
+	register(&Property{
+		ID: "C34",
+		Explanation: "Decides the guards around WAL-file removal and replay bookkeeping on every path: (R34.1) Delete removes the file only through the needsReplay==false and not-active edges, is called only from CleanupOldWALFiles and only on Replay's nil-error edge, and NeedsReplay answers false only for states other than NOTREPLAYED/REPLAYINPROCESS; " +
+			"(R34.2) the cleanup loop's direct os.Remove is guarded by Size() <= the 10-byte status header; (R34.3) every file operation in the loop is behind the `!= ignoreFile` edge and the ignore file is the instance's own new WAL; " +
+			"(R34.4) Replay writes REPLAYINPROCESS before applying and REPLAYED before any successful non-dry-run return; (R2.1) each replayed TG is checkpointed (Syncfs) before success; (R34.6) wal.Move only for ReplayError{Cont}; other replay errors are returned; (R1.4) no other site removes/renames/truncates files.",
+		NotCovered: "outcomes for every combination of leftover files and crash points; contents of the replayed data.",
+		Rules: []Rule{
+			{"R34.1", "deletion only when no replay is needed", ruleDeleteGuarded},
+			{"R34.2", "cleanup loop guards (header-only removal, own file skipped, move-aside policy)", ruleCleanupGuards},
+			{"R34.4", "replay brackets its work with status records", ruleReplayBrackets},
+			{"R2.1", "replayed TG is checkpointed", ruleReplayCheckpointed},
+			{"R35.4", "checkpoint records (COMMITCOMPLETE only) prune replay by id order", ruleCheckpointPrunesReplay},
+			{"R34.7", "no file mutation outside the owning gates", ruleNoForeignWriter("R34.7")},
+		},
+	})
+	register(&Property{
+		ID: "C35",
+		Explanation: "Decides the graceful-shutdown ordering on every path: (R35.1) on SyncWAL's shutdown edge: clear haveWALWriter → FlushToWAL → CreateCheckpoint → walWaitGroup.Done → return (the only exit); (R35.2) Shutdown = set flag → Wait → finishAndWait, and the wait group is incremented wherever the goroutine is started; " +
+			"(R35.3) the signal handler calls WALFileType.Shutdown() before the only os.Exit; (R35.4) the replay apply loop depends on state updated by CHECKPOINT/COMMITCOMPLETE records and prunes by id ORDER (so a checkpointed WAL is not re-applied after restart).",
+		NotCovered: "equality of query results before/after; writes racing with the final flush.",
+		Rules: []Rule{
+			{"R35.1", "shutdown drains in order", ruleShutdownDrains},
+			{"R35.2", "Shutdown waits for the drain", ruleShutdownWaits},
+			{"R35.3", "exit only after Shutdown", ruleExitAfterShutdown},
+			{"R35.4", "checkpoint records prune replay", ruleCheckpointPrunesReplay},
+		},
+	})
+	register(&Property{
+		ID: "C02",
+		Explanation: "Thin structural slice: (R2.1) a replayed TG is checkpointed before replayTGData reports success; (R2.2) TG bytes leave readTGData only behind a successful checksum comparison and only such bytes reach ParseTGData; (R35.4) checkpoint records prune the replay set by id order; (R1.4) no writer outside the WAL flush / replay gates. " +
+			"NOT decided and known to be false on today's tree: idempotence of re-applying a variable-length TG after a crash between its primary write and the next checkpoint.",
+		NotCovered: "exactly-once of variable-length records across crash points (read-modify-append replay is not idempotent); multiset equality.",
+		Rules: []Rule{
+			{"R2.1", "replayed TG is checkpointed", ruleReplayCheckpointed},
+			{"R2.2", "checksum gate", ruleChecksumGate},
+			{"R35.4", "checkpoint records prune replay", ruleCheckpointPrunesReplay},
+			{"R2.3", "no phantom writer", ruleNoForeignWriter("R2.3")},
+		},
+	})
+}
+
+func init() {
+	register(&Property{
+		ID: "C03",
+		Explanation: "Decides structural conditions for a clean restart: (R3.1) in WriteBufferToFileIndirect data is written at the end-of-file offset — no re-positioning between Seek(0,SeekEnd) and the data write (known finding: the in-place continuation write); (R3.2) the index slot is revisited only after the data write and on every success path; " +
+			"(R3.3) failures of replayed writes leave replayTGData as wal.ReplayError, the only class startup tolerates (known finding: raw errors); (R3.4) the explicit panic/exit sites reachable from GetInitWALFile are exactly the frozen, justified table; (R6.4) no explicit panic below Replay; (R6.1) untrusted lengths bounded.",
+		NotCovered: "implicit runtime panics other than those bounded by R6.1; readability of every bucket after arbitrary tearing.",
+		Rules: []Rule{
+			{"R3.1", "indirect data is append-only until the index moves; index after data", ruleIndirectAppendOnly},
+			{"R3.3", "replay failures are ReplayErrors", ruleReplayErrorClass},
+			{"R3.4", "startup panic sites are the frozen table", ruleStartupPanics},
+			{"R6.4", "no explicit panic below Replay", ruleNoPanicUnderReplay},
+			{"R6.1", "lengths from the log are bounded on both sides", ruleUntrustedLengths},
+		},
+	})
+	register(&Property{
+		ID: "C06",
+		Explanation: "Decides, for the readers that run before the checksum gate: (R6.1) every integer decoded from WAL bytes that sizes a buffer or bounds a slice is behind a lower- and an upper-bound test on every path; (R2.2) TG bytes reach the parser/apply loop only behind a successful checksum comparison; " +
+			"(R6.3) each iteration of the scan loop reads from the file before the next one and fullRead stops on EOF/short reads (no hang); (R6.4) no explicit panic is reachable from Replay.",
+		NotCovered: "implicit bounds-check panics inside ParseTGData/DSVFromBytes for checksum-valid but adversarial records; that every intact TG before the damage is applied.",
+		Rules: []Rule{
+			{"R6.1", "lengths from the log are bounded on both sides", ruleUntrustedLengths},
+			{"R2.2", "checksum gate", ruleChecksumGate},
+			{"R6.3", "scan loop progress", ruleReplayLoopProgress},
+			{"R6.4", "no explicit panic below Replay", ruleNoPanicUnderReplay},
 		},
 	})
 }
